@@ -29,7 +29,7 @@ def rel(t, era0):
 
 
 def subterms(t):
-    if isinstance(t, tuple):
+    if isinstance(t, tuple) and t:
         yield t
         for x in t[1:]:
             if isinstance(x, tuple):
@@ -179,8 +179,11 @@ class Lifter:
                     # through a stored back-pointer: (*e.m_keyed_position).second / (*e.m_lfu_position).second
                     bp = it[2]
                     if bp[0] == 'fld' and bp[2] in r.backptrs:
+                        # RI: the index / aux entry a bound element's back-pointer denotes maps back to that element
                         e = self.elem_entity(bp[1])
-                        return Ent('SELF', (e.key(), bp[2]), 0, sid)
+                        e2 = Ent(e.kind, e.arg, e.epoch, sid)
+                        e2.via_self = bp[2]
+                        return e2
                 if it[0] == 'res':
                     return Ent('RESNODE', it[1], 0, sid)
             if loc[0] == 'deref':
@@ -290,6 +293,8 @@ class Lifter:
             if is_ld(v) and v[2][0] == 'fld' and v[2][2] in r.backptrs:
                 return ('HASKEY', (self.elem_entity(v[2][1]),), True)
             return ('HASVAL', (v,), True)
+        if isinstance(t, tuple) and t[0] == 'q' and t[1] == 'empty' and t[2] == self.index:
+            return ('NONEMPTY', (), False)
         if isinstance(t, tuple) and t[0] == 'p':
             if t[1] == 'peek':
                 return ('PEEK', (), True)
@@ -311,6 +316,15 @@ class Lifter:
             nc = norm_cmp(t)
             atoms, c, nop = nc
             # counter vs capacity / zero
+            if self.counter is None and r.kind == 'maplist':
+                # ut_map / ut_set: the index size is the element count
+                sz = [x for x in atoms if isinstance(x, tuple) and x[0] == 'q' and x[1] == 'size' and x[2] == self.index]
+                if len(sz) == 1 and len(atoms) == 1:
+                    k = atoms[sz[0]]
+                    if (k == -1 and nop == '<' and c == 0) or (k == 1 and nop == '!=' and c == 0):
+                        return ('NONEMPTY', (), True)
+                    if (k == 1 and nop in ('<=', '==') and c == 0):
+                        return ('NONEMPTY', (), False)
             if self.counter is not None:
                 cnt = ld0(self.counter)
                 caps = [x for x in atoms if self.is_capacity(x)]
@@ -527,6 +541,8 @@ class Segment:
                 self.loops.append((lp, segs))
                 self.loop_exits[id(lp)] = exits
                 self.order.append(('loop', len(self.loops) - 1))
+            elif k == 'use':
+                self.order.append(('use', e[1]))
             else:
                 eff = self.effect_of(e)
                 if eff is not None:
